@@ -5,6 +5,7 @@ from __future__ import annotations
 import numpy as np
 
 from dask_array._collection import asarray
+from dask_array._core_utils import unknown_chunk_message
 from dask.utils import derived_from
 
 
@@ -60,6 +61,10 @@ def searchsorted(a, v, side="left", sorter=None):
 
     if sorter is not None:
         raise NotImplementedError("da.searchsorted with a sorter argument is not supported")
+
+    if np.isnan(a.chunks[0]).any():
+        # each block's insertion points are shifted by the block's offset in a
+        raise ValueError(f"Array chunk sizes are unknown. shape: {a.shape}, chunks: {a.chunks}{unknown_chunk_message}")
 
     # call np.searchsorted for each pair of blocks in a and v
     meta = np.searchsorted(a._meta, v._meta)
